@@ -21,6 +21,8 @@ import (
 	"math/rand"
 	"strconv"
 	"strings"
+	"sync/atomic"
+	"time"
 
 	"mellium.im/xmlstream"
 	"mellium.im/xmpp"
@@ -28,6 +30,7 @@ import (
 
 	"mellium.im/xmpp/verifharness/core"
 	"mellium.im/xmpp/verifharness/sess"
+	"mellium.im/xmpp/verifharness/stall"
 	"mellium.im/xmpp/verifharness/xmltree"
 )
 
@@ -40,15 +43,22 @@ const nsStreamErr = "urn:ietf:params:xml:ns:xmpp-streams"
 type Prog struct {
 	Read  string `json:"read"` // none | k | all | past-eof | swallow
 	K     int    `json:"k,omitempty"`
-	Write string `json:"write"` // none | element | split | partial
-	Ret   string `json:"ret"`   // nil | read-err | custom
+	Write string `json:"write"` // none | element | split | partial | refused-end | refused-comment | refused-nameless | echo
+	Ret   string `json:"ret"`   // nil | read-err | custom | write-err
 }
 
 // Scenario is a complete case.
 type Scenario struct {
-	S2S      bool     `json:"s2s"`
-	Received bool     `json:"received"`
-	Local    string   `json:"local,omitempty"`
+	S2S      bool   `json:"s2s"`
+	Received bool   `json:"received"`
+	Local    string `json:"local,omitempty"`
+	// Addr changes the session's local address before the stanzas arrive:
+	// "" (no change) | update-neg (Session.UpdateAddr(NewLocal) during
+	// negotiation, before Ready) | update-ready (UpdateAddr on the Ready session:
+	// documented to have no effect) | bind (a real BindResource negotiation in
+	// which the server assigns NewLocal; initiated c2s only).
+	Addr     string   `json:"addr,omitempty"`
+	NewLocal string   `json:"new_local,omitempty"`
 	Items    []string `json:"items"`            // raw pieces of the peer's input, in order; the input ends with EOF
 	Chunks   []int    `json:"chunks,omitempty"` // read sizes handed to the library, cycled; empty = unlimited
 	Programs []Prog   `json:"programs"`         // invocation i runs Programs[i mod len]
@@ -75,7 +85,16 @@ func ownBare(local string) string {
 type gen struct {
 	r     *rand.Rand
 	o     sess.Opts
-	local string
+	local string   // the address the session ends up with
+	other []string // further addresses of interest (the address before a change)
+}
+
+// own picks one of the session's addresses (current or former).
+func (g *gen) own() string {
+	if len(g.other) > 0 && g.r.Intn(2) == 0 {
+		return g.other[g.r.Intn(len(g.other))]
+	}
+	return g.local
 }
 
 func (g *gen) text(idx int) string {
@@ -102,9 +121,9 @@ func (g *gen) fromAttr() string {
 	case x < 4:
 		return ""
 	case x < 8:
-		return " from='" + esc(ownBare(g.local)) + "'"
+		return " from='" + esc(ownBare(g.own())) + "'"
 	case x < 9:
-		return " from='" + esc(g.local) + "'"
+		return " from='" + esc(g.own()) + "'"
 	case x < 10:
 		return " from=''"
 	case x < 12:
@@ -323,6 +342,14 @@ func genProg(r *rand.Rand) Prog {
 	default:
 		p.Ret = "custom"
 	}
+	if r.Intn(80) == 0 {
+		// a write that xml.Encoder refuses; the program swallows or returns the error
+		p.Write = pick(r, "refused-end", "refused-comment", "refused-nameless", "echo")
+		p.Ret = pick(r, "nil", "nil", "write-err")
+		if p.Write == "echo" {
+			p.Read = "none"
+		}
+	}
 	return p
 }
 
@@ -345,6 +372,29 @@ func generate(r *rand.Rand) Scenario {
 	g.o.Remote = "example.net"
 	if o.S2S {
 		g.o.Remote = "example.org"
+	}
+	if x := r.Intn(20); x < 3 {
+		old := g.local
+		switch {
+		case x == 0 && !sc.S2S:
+			sc.Addr = "bind"
+			sc.Received = false
+			sc.NewLocal = pick(r, "a1b2c3@example.net/res", "me@example.net/bound", "guest-7@anon.example.net/x")
+		case x == 1 || sc.S2S:
+			sc.Addr = "update-neg"
+			sc.NewLocal = pick(r, "a1b2c3@example.net/res", "renamed@example.com", "example.com")
+			if !sc.S2S && r.Intn(4) == 0 {
+				sc.NewLocal = ownBare(old) + "/other-resource" // same bare address
+			}
+		default:
+			sc.Addr = "update-ready"
+			sc.NewLocal = pick(r, "a1b2c3@example.net/res", "renamed@example.com")
+		}
+		if sc.Addr == "update-ready" {
+			g.other = []string{sc.NewLocal} // never becomes the session's address
+		} else {
+			g.local, g.other = sc.NewLocal, []string{old}
+		}
 	}
 	ws := func() {
 		if r.Intn(4) == 0 {
@@ -578,17 +628,20 @@ type readRec struct {
 }
 
 type invocation struct {
-	Start  xml.StartElement
-	Reads  []readRec
-	Ret    error
-	RetStr string
+	WriteErr error // the error of a write the encoder was expected to refuse
+	Refused  bool  // such a write was attempted
+	Start    xml.StartElement
+	Reads    []readRec
+	Ret      error
+	RetStr   string
 }
 
 var errCustom = errors.New("c08: handler program error")
 
 type recorder struct {
-	sc   Scenario
-	invs []*invocation
+	sc       Scenario
+	invs     []*invocation
+	progress atomic.Int64
 }
 
 func (rc *recorder) HandleXMPP(rw xmlstream.TokenReadEncoder, start *xml.StartElement) error {
@@ -596,8 +649,10 @@ func (rc *recorder) HandleXMPP(rw xmlstream.TokenReadEncoder, start *xml.StartEl
 	p := rc.sc.Programs[i%len(rc.sc.Programs)]
 	inv := &invocation{Start: start.Copy()}
 	rc.invs = append(rc.invs, inv)
+	rc.progress.Add(1)
 	var last error
 	read := func() error {
+		rc.progress.Add(1)
 		tok, err := rw.Token()
 		if tok != nil {
 			tok = xml.CopyToken(tok)
@@ -659,8 +714,40 @@ func (rc *recorder) HandleXMPP(rw xmlstream.TokenReadEncoder, start *xml.StartEl
 		rw.EncodeToken(note.End())
 	case "partial":
 		rw.EncodeToken(note)
+	case "refused-end":
+		// the classic slip: the end tag of an element whose start was never written
+		inv.Refused = true
+		inv.WriteErr = rw.EncodeToken(start.End())
+	case "refused-comment":
+		inv.Refused = true
+		inv.WriteErr = rw.EncodeToken(xml.Comment("-->"))
+	case "refused-nameless":
+		inv.Refused = true
+		inv.WriteErr = rw.EncodeToken(xml.StartElement{})
+	case "echo":
+		// xmlstream.Copy(rw, rw) without encoding *start first
+		inv.Refused = true
+		readFailed := false
+		_, inv.WriteErr = xmlstream.Copy(rw, xmlstream.ReaderFunc(func() (xml.Token, error) {
+			err := read()
+			if err != nil && err != io.EOF {
+				readFailed = true
+			}
+			var tok xml.Token
+			if n := len(inv.Reads); n > 0 && inv.Reads[n-1].Tok != nil {
+				// a copy of its own: the session's encoder edits attribute slices in place
+				tok = xml.CopyToken(inv.Reads[n-1].Tok)
+			}
+			return tok, err
+		}))
+		if readFailed {
+			inv.WriteErr = nil // a read error ended the copy, not a refused write
+		}
 	}
+	rc.progress.Add(1)
 	switch p.Ret {
+	case "write-err":
+		inv.Ret = inv.WriteErr
 	case "read-err":
 		inv.Ret = last
 	case "custom":
@@ -790,34 +877,93 @@ func termKey(ref *reference) string {
 // Run executes one scenario and judges it.
 func Run(c *core.Case, sc Scenario) {
 	c.Sample(sc)
-	o := sess.Opts{S2S: sc.S2S, Received: sc.Received, Local: sc.Local}
-	p, err := sess.NewPair(o)
-	if err != nil {
-		c.Notef("session setup failed: %v", err)
-		c.Count("setup_failed", 1)
-		return
-	}
-	o = p.Opts
-	ns := o.NS()
-	own := ownBare(o.Local)
 	input := strings.Join(sc.Items, "")
-	ref := parseRef(sess.Header(o), input)
 	if len(sc.Programs) == 0 {
 		sc.Programs = []Prog{{Read: "all", Write: "none", Ret: "nil"}}
 	}
+	ev, ok := newEnv(c, sc, input)
+	if !ok {
+		return
+	}
+	defer ev.done()
+	o := ev.Opts
+	ns := o.NS()
+	// the session's own bare address: what LocalAddr reports now, which must be
+	// what the scenario made it
+	wantLocal := o.Local
+	if sc.Addr == "update-neg" || sc.Addr == "bind" {
+		wantLocal = sc.NewLocal
+	}
+	own := ownBare(ev.S.LocalAddr().String())
+	if own != ownBare(wantLocal) {
+		c.Count("localaddr_differs_from_scenario", 1)
+		c.Notef("LocalAddr() is %q, the scenario expects %q", ev.S.LocalAddr().String(), wantLocal)
+	}
+	oldOwn := ""
+	if sc.Addr == "update-neg" || sc.Addr == "bind" {
+		oldOwn = ownBare(o.Local)
+		if oldOwn != own {
+			c.Count("bare_address_changed_before_serve", 1)
+		}
+	}
+	ref := parseRef(sess.Header(o), input)
 	rec := &recorder{sc: sc}
 	if len(sc.Chunks) > 0 {
 		k := 0
-		p.Lib.SetChunker(func(avail int) int {
+		ev.Lib.SetChunker(func(avail int) int {
 			n := sc.Chunks[k%len(sc.Chunks)]
 			k++
 			return n
 		})
 	}
-	p.Send(input)
-	p.Peer.CloseWrite()
+	// Serve runs on its own goroutine so that a serve loop that wedges (a leaked
+	// lock after a refused write, for example) is decided by the quiescent-stall
+	// rule: the whole input including its EOF is already queued, so when the
+	// progress counter stands still nothing can wake a parked goroutine any more.
 	var serveErr error
-	if c.Guard("Serve", func() { serveErr = p.S.Serve(xmpp.Handler(rec)) }) {
+	var panicked bool
+	done := make(chan struct{})
+	go func() {
+		defer close(done)
+		panicked = c.Guard("Serve", func() { serveErr = ev.S.Serve(xmpp.Handler(rec)) })
+	}()
+	progress := func() int64 {
+		_, _, ops := ev.Lib.Ops() // transport activity counts as progress too
+		return rec.progress.Load() + int64(ops)
+	}
+	deadline := time.Now().Add(40 * time.Second)
+	for {
+		finished, quiescent := stall.AwaitQuiet(done, progress, time.Second, 10*time.Second)
+		if finished {
+			break
+		}
+		if quiescent {
+			// nothing moved: wedged, or merely starved of CPU?  Only a library
+			// goroutine parked in a channel operation or on a mutex decides.
+			if parked := freshParked(stall.Check(nil, 100*time.Millisecond)); len(parked) > 0 {
+				select {
+				case <-done: // it moved after all
+					continue
+				default:
+				}
+				c.Count("serve_did_not_return", 1)
+				for _, g := range parked {
+					convicted[g.ID] = true
+				}
+				last := "none"
+				if n := len(rec.invs); n > 0 {
+					last = fmt.Sprintf("%d (program %+v)", n-1, sc.Programs[(n-1)%len(sc.Programs)])
+				}
+				c.Violate(stall.Key(parked[0]), "Serve does not return: the whole input (with EOF) is queued, nothing moves, and %d library goroutine(s) stay parked; last handler invocation: %s\n%s", len(parked), last, parked[0].Stack)
+				return
+			}
+		}
+		if time.Now().After(deadline) {
+			c.Inconclusive("Serve did not return within 40s and the stall rule found no parked library goroutine")
+			return
+		}
+	}
+	if panicked {
 		return
 	}
 	c.Count("streams", 1)
@@ -888,6 +1034,31 @@ func Run(c *core.Case, sc Scenario) {
 		}
 		if blank {
 			c.Count("from_blanked_expected", 1)
+			if oldOwn != "" && oldOwn != own {
+				c.Count("from_blanked_expected_after_addr_change", 1)
+			}
+		}
+		if isStanza && oldOwn != "" && oldOwn != own {
+			for _, a := range want.Attr {
+				if a.Name.Space == "" && a.Name.Local == "from" && a.Value == oldOwn {
+					c.Count("former_bare_from_after_addr_change", 1)
+				}
+			}
+		}
+		if inv.Refused {
+			c.Count("refused_writes", 1)
+			c.Count("refused_write_"+prog.Write, 1)
+			switch {
+			case inv.WriteErr == nil:
+				c.Count("refused_write_was_accepted_or_not_reached", 1)
+			case inv.Ret == nil:
+				c.Count("refused_write_error_swallowed", 1)
+				if i+1 < len(rec.invs) {
+					c.Count("refused_write_then_more_elements", 1)
+				}
+			default:
+				c.Count("refused_write_error_returned", 1)
+			}
 		}
 		if k := leakKind(inv.Start); k != "" {
 			c.Violate("elem:leak:"+k, "invocation %d was given the start tag %s", i, tokStr(inv.Start))
@@ -1032,6 +1203,21 @@ func Run(c *core.Case, sc Scenario) {
 	}
 }
 
+// convicted holds the goroutines that earlier cases of this process left
+// parked for good; they must not convict a later case.  (A child runs one case
+// at a time.)
+var convicted = map[string]bool{}
+
+func freshParked(ps []stall.Parked) []stall.Parked {
+	var out []stall.Parked
+	for _, g := range ps {
+		if !convicted[g.ID] {
+			out = append(out, g)
+		}
+	}
+	return out
+}
+
 func sameStartExceptFrom(a, b xml.StartElement) bool {
 	strip := func(se xml.StartElement) xml.StartElement {
 		out := xml.StartElement{Name: se.Name}
@@ -1102,7 +1288,7 @@ func Prop() *core.Prop {
 	return &core.Prop{
 		ID:    "C08",
 		Level: core.Exploration,
-		Rule:  "a case is one pre-loaded input stream: 0-4 PRNG element trees (stanzas and others, depth <= 4, stanza-named children, text/CDATA/entities; every start tag and text run carries the index of its top-level element), white-space keep-alives, one terminator out of {closing tag, stream error, restart, other stream-namespace element, comment, PI, directive, non-white text, malformed XML, bare EOF} at the top level or nested in an element, an optional trailer, then EOF; client and server namespaces, initiated and received sessions, PRNG read chunking. Serve runs single-threaded with recording handler programs (read none / k tokens / all / past EOF / swallow read errors; write nothing / an element / split / unclosed; return nil / the error read / an own error). The reference is an independent encoding/xml pass over the same bytes. Distinct = distinct (terminator, namespace, program, element class, outcome).",
+		Rule:  "a case is one pre-loaded input stream: 0-4 PRNG element trees (stanzas and others, depth <= 4, stanza-named children, text/CDATA/entities; every start tag and text run carries the index of its top-level element), white-space keep-alives, one terminator out of {closing tag, stream error, restart, other stream-namespace element, comment, PI, directive, non-white text, malformed XML, bare EOF} at the top level or nested in an element, an optional trailer, then EOF; client and server namespaces, initiated and received sessions, PRNG read chunking. Serve runs single-threaded with recording handler programs (read none / k tokens / all / past EOF / swallow read errors; write nothing / an element / split / unclosed / a token the encoder refuses (end tag without start, comment containing the comment terminator, nameless start tag, xmlstream.Copy(rw, rw) without the start); return nil / the error read / an own error / the write error). Serve runs on its own goroutine; when it does not return the quiescent-stall rule decides. 15% of the sessions have their local address changed first (UpdateAddr during negotiation, UpdateAddr on the Ready session, a real BindResource negotiation with a server-assigned address); the from rule is judged against the address LocalAddr reports when the stanzas arrive, with stanzas from the former and the new bare and full addresses. The reference is an independent encoding/xml pass over the same bytes. Distinct = distinct (terminator, namespace, program, element class, outcome).",
 		Assumptions: []string{
 			"whether the end tag is delivered to the handler, the outcome for a bare EOF and the exact error values are not demanded",
 			"a comment, PI, directive or stream-namespace element nested in an element is a stream-level construct in the sense of the statement (quantifier: at any nesting depth): it must not be delivered as a token and Serve must end with an error",
@@ -1119,6 +1305,10 @@ func Prop() *core.Prop {
 			"invocations", "stanzas_dispatched", "non_stanzas_dispatched", "from_blanked_expected", "non_stanza_with_own_from",
 			"elements_read_to_eof", "elements_partly_read", "elements_not_read", "reads_after_eof", "reads_after_error",
 			"nested_construct_surfaced_as_read_error", "chunked_streams",
+			"addr_update_neg", "addr_update_ready", "addr_bind", "bare_address_changed_before_serve",
+			"from_blanked_expected_after_addr_change", "former_bare_from_after_addr_change",
+			"refused_writes", "refused_write_refused-end", "refused_write_refused-comment", "refused_write_refused-nameless", "refused_write_echo",
+			"refused_write_error_swallowed", "refused_write_error_returned", "refused_write_then_more_elements",
 			"outcome_closing_tag", "outcome_stream_error", "outcome_must_be_error",
 			"terminator_closing", "terminator_stream-error", "terminator_restart", "terminator_stream-element", "terminator_comment",
 			"terminator_procinst", "terminator_directive", "terminator_text", "terminator_malformed", "terminator_eof",
